@@ -34,7 +34,7 @@ def run(ctx):
                    samples=[dict(gen=d["gen"], mode=d["mode"], n=d["n"], outcome=d["outcome"], detail=d["detail"][:120], input=smlcommon.text_of(d["input"], 80)) for d in tot[::max(1, len(tot) // 4)][:5]],
                    outcomes=outcomes, generators=gens, largest_input=max(d["n"] for d in tot), parse_errors_with_position=sum(1 for d in tot if d["is_parse_error"]),
                    exhaustive=False, checker_cmd="vh sml --parts total,conc (child processes); tlc OracleSml")
-    ctx.assumptions += ["time envelope 1 s + 0.2 ms/KB + 150 us x (KB)^2, allocation envelope 4 MiB + 256 x len(input); a hang is 8 s without a result (dispatch stops after 6 hangs)",
+    ctx.assumptions += ["time envelope 1 s + 0.25 ms/KiB + 150 ms x (KiB/32)^2, allocation envelope 4 MiB + 256 x len(input); a hang is 8 s without a result (dispatch stops after 6 hangs)",
                         "goroutine interleavings of the isolation clause are sampled by the Go scheduler, not enumerated"]
 
 
